@@ -346,7 +346,15 @@ func Random(r *rand.Rand) *File {
 		s.Data = make([]byte, n)
 		r.Read(s.Data)
 		s.Size = uint64(n)
-		switch r.Intn(10) {
+		switch r.Intn(14) {
+		case 10: // executable but not allocated / with unrelated flag bits: still code
+			s.Flags = SHFExec
+		case 11:
+			s.Flags = SHFExec | SHFWrite | uint64([]int{0, 0x10, 0x20, 0x40, 0x80, 0x200}[r.Intn(6)])
+		case 12:
+			s.Flags = SHFAlloc | SHFExec | SHFWrite | uint64([]int{0, 0x10, 0x20, 0x100, 0x400}[r.Intn(5)])
+		case 13: // allocated, neither writable nor executable: not code
+			s.Flags = SHFAlloc | uint64([]int{0, 0x10, 0x20}[r.Intn(3)])
 		case 0:
 			s.Flags = SHFAlloc | SHFWrite // not executable
 		case 1:
